@@ -170,7 +170,7 @@ def check(ctx):
         else:
             k = M.configs_for(6).index(conn)
             gp += [(n, conn, gid) for gid in range(k, ng, 7 * (8 if quick else 1))]
-    nch = core.NPROC * 8
+    nch = core.NPROC * 2
     for part in core.pmap(_graph_work, [gp[k::nch] for k in range(nch)]):
         for r in part:
             ctx.count("graph_form_states")
